@@ -209,6 +209,25 @@ static int vh_check_heap(sexp ctx, int after_sweep, struct vh_heap_stats *st) {
                       (unsigned long)i, (void *)p, (unsigned)sexp_pointer_tag(p), (void *)v);
           }
         }
+        /* weak slots and the value slot of an ephemeron: whatever survived the collection was not reset, so it must be live
+           (an ephemeron whose key is alive keeps its value alive) */
+        if (sexp_type_num_weak_slots_of_object(t, p) > 0) {
+          sexp *wv = (sexp *)(((char *)p) + sexp_type_weak_base(t));
+          size_t wlen = sexp_type_num_weak_slots_of_object(t, p) + sexp_type_weak_len_extra(t);
+          for (i = 0; i < wlen; i++) {
+            v = wv[i];
+            if (!v || !sexp_pointerp(v)) continue;
+            vh = vh_heap_of(ctx, v);
+            if (!vh) continue;
+            {
+              size_t k = 0; sexp_heap hh;
+              for (hh = sexp_context_heap(ctx); hh != vh; hh = hh->next) k++;
+              if ((((char *)v - (char *)vh->data) & 31) || !starts[k][((char *)v - (char *)vh->data) / 32])
+                VH_FAIL("weak/ephemeron slot %lu of live object %p (tag %u) holds %p which is not the start of a live object",
+                        (unsigned long)i, (void *)p, (unsigned)sexp_pointer_tag(p), (void *)v);
+            }
+          }
+        }
         p = (sexp)(((char *)p) + size);
       }
     }
